@@ -34,7 +34,8 @@ CONSTANTS
   MCleanClash,         \* TRUE: output created before a .tmp name clash is removed again
   MEmptyLoads,         \* TRUE: a file without any per-step record can be loaded
   MSaveValid,          \* TRUE: only the valid part of the record buffer is written
-  MFinalGuard          \* TRUE: a KeyboardInterrupt during the final save is caught like one in the loop
+  MFinalGuard,         \* TRUE: a KeyboardInterrupt during the final save is caught like one in the loop
+  MResumeRepeats       \* TRUE: a paused simulation that is resumed repeats the interrupted step (FALSE: skips it)
 
 VARIABLES
   cfg,        \* [k, solveT, skipT, out, foreign, bad] chosen once
@@ -139,9 +140,12 @@ Run ==
 
 AfterSavePc == IF MStopBeforeUpdate THEN "stop" ELSE "update"
 
+\* (only after a resume) the regular frame of step i is already in the file: the repeated step does not save it again
+AlreadySaved == MResumeRepeats /\ Saving /\ Len(frames) > 0 /\ frames[Len(frames)].step = i /\ frames[Len(frames)].complete
+
 Label ==
   /\ pc = "label"
-  /\ pc' = IF i % K = 0 THEN (IF Saving THEN "save" ELSE "clear") ELSE AfterSavePc
+  /\ pc' = IF i % K = 0 /\ ~AlreadySaved THEN (IF Saving THEN "save" ELSE "clear") ELSE AfterSavePc
   /\ wr' = 0
   /\ UNCHANGED <<cfg, fs, serial, stage, i, t, applied, tapplied, buf, bstep, frames,
                  cancelled, err, result, faults, simdts, tdts, flog>>
@@ -240,19 +244,26 @@ FaultSite(at) ==
   \/ pc = "run" /\ at = "setup"          \* inside the DataHandler context before the loop: save_mesh, fixed values
   \/ pc = "assemble" /\ at = "assemble"   \* after the loop: Solution(...) / Solution.to_hdf5()
 
+\* kind "KIR": pause_on_interrupt (the default) — a KeyboardInterrupt inside the loop is answered with "continue":
+\* the loop carries on.  What the interrupted step had already done (a partial frame, an appended record) is
+\* undone or overwritten, and the step is repeated with the same index and time.
 Fault(kind, at) ==
   /\ faults < MaxFaults /\ kind \in FaultKinds /\ FaultSite(at)
+  /\ (kind = "KIR" => pc \in {"update", "save"})
   /\ faults' = faults + 1
   /\ flog' = Append(flog, [kind |-> kind, where |-> pc, stage |-> stage, i |-> i, at |-> at])
   /\ buf' = IF pc = "update" /\ at = "post" THEN [buf EXCEPT ![bstep] = GhostUid] ELSE buf
   /\ frames' = RollbackFrames
   /\ wr' = 0
-  /\ IF kind = "KI" /\ pc \in {"update", "save"}
+  /\ i' = IF kind = "KIR" /\ ~MResumeRepeats THEN i + 1 ELSE i
+  /\ IF kind = "KIR"
+       THEN pc' = "label" /\ UNCHANGED <<cancelled, err>>               \* resumed
+       ELSE IF kind = "KI" /\ pc \in {"update", "save"}
        THEN cancelled' = TRUE /\ pc' = "final" /\ UNCHANGED err        \* caught inside the loop
        ELSE IF kind = "KI" /\ pc = "final" /\ MFinalGuard
        THEN cancelled' = TRUE /\ pc' = "stageend" /\ UNCHANGED err
        ELSE err' = TRUE /\ pc' = "close" /\ UNCHANGED cancelled        \* propagates (also KI in the final save)
-  /\ UNCHANGED <<cfg, fs, serial, stage, i, t, applied, tapplied, bstep, result, simdts, tdts>>
+  /\ UNCHANGED <<cfg, fs, serial, stage, t, applied, tapplied, bstep, result, simdts, tdts>>
 
 -----------------------------------------------------------------------------
 (* Reader: what Solution.__init__ reconstructs from the file.              *)
